@@ -454,7 +454,8 @@ drain:
 	}
 	if !got {
 		if debugDump != nil {
-			d1 := string(dumpAll())
+			d0 := lastQuietDump
+			d1 := "=====JUDGED\n" + d0 + "\n=====BASE " + fmt.Sprint(base) + "\n=====NOW\n" + string(dumpAll())
 			time.Sleep(100 * time.Millisecond)
 			late := len(sent)
 			debugDump(fmt.Sprintf("late=%d\n%s\n=====AFTER\n%s", late, d1, string(dumpAll())))
